@@ -1096,6 +1096,20 @@ func runCase(ctx context.Context, out *vc.Out, caseID int, seed uint64, tier str
 				}
 			}
 		}
+		// grouping by one to three fields (with a filter): the groups and their sizes against the model
+		for i := 0; i < 4 && !w.extreme; i++ {
+			fs := append([]string{}, fieldNames...)
+			for a := len(fs) - 1; a > 0; a-- {
+				b := r.Intn(a + 1)
+				fs[a], fs[b] = fs[b], fs[a]
+			}
+			fs = fs[:1+r.Intn(3)]
+			fl := &filt{op: "T"}
+			if r.Bool() {
+				fl = genFilt(r, 1)
+			}
+			w.grouped(fl, fs)
+		}
 		// several aggregates over one group in one request
 		for i := 0; i < 3 && !w.extreme; i++ {
 			a := []int64{-5, 0, 1, 2}[r.Intn(4)]
@@ -1112,6 +1126,63 @@ func runCase(ctx context.Context, out *vc.Out, caseID int, seed uint64, tier str
 			w.run(q)
 		}
 	}()
+}
+
+// jsonTok renders a value of the answer in the token syntax of the operation lines
+func jsonTok(f string, v any) string {
+	if v == nil {
+		return "n"
+	}
+	switch fieldKinds[f] {
+	case "s":
+		return "s" + vc.Hex([]byte(fmt.Sprint(v)))
+	case "i":
+		return "i" + fmt.Sprint(v)
+	case "f":
+		x, _ := strconv.ParseFloat(fmt.Sprint(v), 64)
+		return "f" + strconv.FormatInt(int64(x*8), 10)
+	default:
+		if fmt.Sprint(v) == "true" {
+			return "b1"
+		}
+		return "b0"
+	}
+}
+
+// grouped: `Doc(filter: .., groupBy: [fs]) { fs _count(_group: {}) }`, every group as value|value=size, sorted
+func (w *world) grouped(fl *filt, fs []string) {
+	args := "groupBy: [" + strings.Join(fs, ", ") + "]"
+	if fl.op != "T" {
+		args = "filter: " + fl.gql() + ", " + args
+	}
+	q := fmt.Sprintf(`query { Doc(%s) { %s _count(_group: {}) } }`, args, strings.Join(fs, " "))
+	render := func(r gqlRes) string {
+		if r.err != "" {
+			return strings.ReplaceAll(r.err, " ", "_")
+		}
+		var rows []string
+		for _, g := range r.docs {
+			var k []string
+			for _, f := range fs {
+				k = append(k, jsonTok(f, g[f]))
+			}
+			rows = append(rows, strings.Join(k, "|")+"="+fmt.Sprint(g["_count"]))
+		}
+		sort.Strings(rows)
+		if len(rows) == 0 {
+			return "-"
+		}
+		return strings.Join(rows, ",")
+	}
+	got := render(exec(w.ctx, w.n, q))
+	line := w.out.Lines
+	w.out.Emit("qg "+fl.tok()+" "+strings.Join(fs, ","), got)
+	w.out.Count("op:qg")
+	if w.twin != nil {
+		if tg := render(exec(w.ctx, w.twin, q)); tg != got {
+			w.out.Oracle(line, fmt.Sprintf("[index-changes-aggregate] case %d indexes {%s}: %s returns %s without indexes and %s with them", w.caseID, w.idxDesc, q, got, tg))
+		}
+	}
 }
 
 // groupedPair: several aggregates over the same group in ONE request, the later filters extending the earlier one
